@@ -210,7 +210,10 @@ namespace jsoncons {
 
         ordered_json_object& operator=(const ordered_json_object& val)
         {
-            data_ = val.data_;
+            // Copy first, then swap: element-wise vector assignment that fails half way
+            // would leave old and new members mixed (keys out of order or duplicated).
+            key_value_container_type temp(val.data_, data_.get_allocator());
+            data_.swap(temp);
             return *this;
         }
 
